@@ -288,3 +288,34 @@ def string_from_iter(I, m, a, dt):
         else:
             t = gs(I, v); out += t.chars[t.lo:t.hi]
     raise PathEnd('bound', 'String::from_iter')
+
+@model(r'^core::str::<impl str>::(find|rfind)::<(char|&str)>$')
+def str_find(I, m, a, dt):
+    s = gs(I, a[0]); cps = s.cps()
+    pat = [a[1]] if m.group(2) == 'char' else gs(I, a[1]).cps()
+    n = len(pat)
+    order = range(len(cps) - n + 1) if m.group(1) == 'find' else range(len(cps) - n, -1, -1)
+    for i in order:
+        if I.branch(zand(*[cps[i + j].v == pat[j].v for j in range(n)])):
+            return some(VInt(sum(w for _, w in s.chars[s.lo:s.lo + i]), 'usize'))
+    return none()
+@model(r'^core::str::<impl str>::(split|split_once|rsplit_once)::<(char|&str)>$')
+def str_split(I, m, a, dt):
+    s = gs(I, a[0]); cps = s.cps()
+    pat = [a[1]] if m.group(2) == 'char' else gs(I, a[1]).cps()
+    n = len(pat); k = m.group(1)
+    if n == 0: raise Unsupported('split on an empty pattern')
+    hits = []; i = 0
+    while i + n <= len(cps):
+        if I.branch(zand(*[cps[i + j].v == pat[j].v for j in range(n)])): hits.append(i); i += n
+        else: i += 1
+    if k == 'split':
+        parts = []; start = 0
+        for h in hits: parts.append(sref(StrS(s.chars, s.lo + start, s.lo + h))); start = h + n
+        parts.append(sref(StrS(s.chars, s.lo + start, s.hi)))
+        return VObj('veciter', items=parts, pos=0, end=None)
+    if not hits: return none()
+    h = hits[0] if k == 'split_once' else hits[-1]
+    return some(VTuple([sref(StrS(s.chars, s.lo, s.lo + h)), sref(StrS(s.chars, s.lo + h + n, s.hi))]))
+@model(r'^core::str::<impl str>::(lines|char_indices|chars)$')
+def str_iters(I, m, a, dt): raise Fallthrough()
